@@ -247,7 +247,8 @@ func (fv *FV) discharge(o *Obligation, timeout time.Duration, all bool) {
 				best.solver = r.solver
 			}
 		case "error":
-			if best.status == "unknown" && best.out == "" {
+			if best.status == "unknown" || best.status == "timeout" {
+				best.status = "error"
 				best.out = r.out
 				best.solver = r.solver
 			}
@@ -260,10 +261,10 @@ func (fv *FV) discharge(o *Obligation, timeout time.Duration, all bool) {
 	}
 	o.Status = best.status
 	o.Solver = best.solver
-	if best.status == "sat" || best.status == "unknown" {
+	if best.status == "sat" || best.status == "unknown" || best.status == "error" {
 		o.Model = truncate(best.out, 4000)
 	}
-	if o.Status != "unsat" && o.Status != "sat" {
+	if o.Status != "unsat" && o.Status != "sat" && o.Status != "error" {
 		// candidate counterexample: drop quantified assumptions (weaker hypotheses), ask for a model
 		g := groundQuery(q)
 		r := runSolver(context.Background(), solvers[0], g, 5*time.Second)
